@@ -37,3 +37,731 @@ Proof.
     by (apply ideal_N_gt; vm_compute; reflexivity).
   lia.
 Qed.
+
+(* ====================================================================================
+   Refinement: the Table model (TableModel.v) refines the association-list finite map
+   for EVERY hash function.  Generic slot-array facts come from RobinHoodProofs.v.    *)
+From Coq Require Import Permutation.
+From CelloV Require Import RobinHoodProofs.
+
+Section Spec.
+  Variables K V : Type.
+  Variable keq : K -> K -> bool.
+  Hypothesis keq_spec : forall a b, keq a b = true <-> a = b.
+
+  Local Notation a_get := (a_get K V keq).
+  Local Notation a_rem := (a_rem K V keq).
+  Local Notation a_set := (a_set K V keq).
+
+  Lemma keq_refl k : keq k k = true.
+  Proof. apply keq_spec. reflexivity. Qed.
+
+  Lemma keq_false a b : a <> b -> keq a b = false.
+  Proof. intros H. destruct (keq a b) eqn:E; [|reflexivity]. apply keq_spec in E. contradiction. Qed.
+
+  Lemma a_get_none (m : amap K V) k : a_get m k = None <-> ~ In k (map fst m).
+  Proof.
+    induction m as [|[k' v] m IH]; simpl; [tauto|].
+    destruct (keq k' k) eqn:E.
+    - apply keq_spec in E. subst. split; [discriminate|]. intros H. exfalso. apply H. auto.
+    - rewrite IH. split; [|tauto]. intros H [->|H1]; [|tauto]. rewrite keq_refl in E. discriminate.
+  Qed.
+
+  Lemma a_get_some (m : amap K V) k v : NoDup (map fst m) -> (a_get m k = Some v <-> In (k, v) m).
+  Proof.
+    induction m as [|[k' v'] m IH]; simpl; intros Hnd; [split; [discriminate|tauto]|].
+    inversion Hnd as [|? ? Hnin Hnd']; subst.
+    destruct (keq k' k) eqn:E.
+    - apply keq_spec in E. subst k'. split.
+      + intros H. injection H as ->. auto.
+      + intros [H|H]; [congruence|]. exfalso. apply Hnin. apply (in_map fst) in H. exact H.
+    - rewrite (IH Hnd'). split; [auto|]. intros [H|H]; [|exact H]. injection H as -> ->.
+      rewrite keq_refl in E. discriminate.
+  Qed.
+
+  Lemma in_a_rem (m : amap K V) k e : In e (a_rem m k) <-> In e m /\ fst e <> k.
+  Proof.
+    induction m as [|[k' v'] m IH]; simpl; [tauto|].
+    destruct (keq k' k) eqn:E.
+    - apply keq_spec in E. subst k'. rewrite IH. split; [tauto|]. intros [[<-|H] Hne]; [simpl in Hne; congruence|tauto].
+    - simpl. rewrite IH. split; [|tauto]. intros [<-|H]; [|tauto]. split; [auto|]. simpl. intros ->.
+      rewrite keq_refl in E. discriminate.
+  Qed.
+
+  Lemma nodup_a_rem (m : amap K V) k : NoDup (map fst m) -> NoDup (map fst (a_rem m k)).
+  Proof.
+    induction m as [|[k' v'] m IH]; simpl; intros Hnd; [constructor|].
+    inversion Hnd as [|? ? Hnin Hnd']; subst.
+    destruct (keq k' k); [auto|]. simpl. constructor; [|auto].
+    intros Hin. apply Hnin. apply in_map_iff in Hin. destruct Hin as [e [He Hin]].
+    apply in_a_rem in Hin. apply in_map_iff. exists e. tauto.
+  Qed.
+
+  Lemma nodup_a_set (m : amap K V) k v : NoDup (map fst m) -> NoDup (map fst (a_set m k v)).
+  Proof.
+    intros Hnd. unfold TableModel.a_set. simpl. constructor; [|apply nodup_a_rem; assumption].
+    intros Hin. apply in_map_iff in Hin. destruct Hin as [e [He Hin]]. apply in_a_rem in Hin. tauto.
+  Qed.
+
+  Lemma in_a_set (m : amap K V) k v e : In e (a_set m k v) <-> e = (k, v) \/ (In e m /\ fst e <> k).
+  Proof. unfold TableModel.a_set. simpl. rewrite in_a_rem. intuition auto. Qed.
+
+  Lemma nodup_fst_nodup (m : list (K * V)) : NoDup (map fst m) -> NoDup m.
+  Proof. apply NoDup_map_inv. Qed.
+End Spec.
+
+Section TP.
+  Variables K V : Type.
+  Variable keq : K -> K -> bool.
+  Variable hash : K -> N.
+  Variable swap : nat -> nat -> bool.
+  Variable primes : list N.
+  Variables num den : N.
+  Hypothesis keq_spec : forall a b, keq a b = true <-> a = b.
+  (* the repaired rule of Table_Set_Move, `if (j > p)`: Generated.table_swap *)
+  Hypothesis swap_strict : forall j p, swap j p = true -> p < j.
+  Hypothesis swap_ge : forall j p, swap j p = false -> j <= p.
+  (* Table_Ideal_Size always leaves a free slot: ideal_gt for the generated data *)
+  Hypothesis ideal_gt : forall n, n < ideal_size primes num den n.
+
+  Local Notation entry := (entry K V).
+  Local Notation table := (table K V).
+  Local Notation slots := (slots K V).
+  Local Notation nitems := (nitems K V).
+  Local Notation nslots := (nslots K V).
+  Local Notation mkT := (mkT K V).
+  Local Notation home := (home K hash).
+  Local Notation ideal := (ideal primes num den).
+  Local Notation t_iter := (t_iter K V).
+  Local Notation t_len := (t_len K V).
+  Local Notation t_step := (t_step K V keq hash swap primes num den).
+  Local Notation set_move := (set_move K V keq hash swap).
+  Local Notation t_rehash := (t_rehash K V keq hash swap).
+  Local Notation resize_more := (resize_more K V keq hash swap primes num den).
+  Local Notation resize_less := (resize_less K V keq hash swap primes num den).
+  Local Notation t_lookup := (t_lookup K V keq hash).
+  Local Notation set_all := (set_all K V keq hash swap).
+  Local Notation t_assign_from := (t_assign_from K V keq hash swap primes num den).
+  Local Notation t_empty := (t_empty K V primes num den).
+  Local Notation t_run := (t_run K V keq hash swap primes num den).
+  Local Notation spec_step := (spec_step K V keq).
+  Local Notation spec_run := (spec_run K V keq).
+  Local Notation a_get := (a_get K V keq).
+  Local Notation a_rem := (a_rem K V keq).
+  Local Notation a_set := (a_set K V keq).
+  Local Notation Holds := (Holds entry).
+  Local Notation occupied := (occupied entry).
+  Local Notation entries := (entries entry).
+  Local Notation at_ := (at_ entry).
+  Local Notation new_wins := (fun (_ new : entry) => new).
+
+  Lemma swap_le j p : swap j p = true -> p <= j.
+  Proof. intros H. apply swap_strict in H. lia. Qed.
+
+  (* home slot of a key in an array of n slots *)
+  Definition hmn (n : nat) : K -> nat := fun k => home k n.
+
+  Lemma home_lt k n : 0 < n -> hmn n k < n.
+  Proof.
+    intros Hn. unfold hmn, TableModel.home.
+    pose proof (N.mod_lt (hash k) (N.of_nat n) ltac:(lia)). lia.
+  Qed.
+
+  (* the slot array is a well-formed robin-hood array for the current slot count, and
+     nitems counts the occupied slots *)
+  Definition pre_inv (t : table) : Prop :=
+    core K entry fst (hmn (nslots t)) (slots t) /\ nitems t = occupied (slots t).
+  (* ... and there is a free slot (or no slot array at all, after resize(t,0)) *)
+  Definition t_inv (t : table) : Prop :=
+    pre_inv t /\ (nitems t < nslots t \/ nslots t = 0).
+  (* abstraction relation: the table holds exactly the bindings of the map *)
+  Definition R (t : table) (m : amap K V) : Prop :=
+    NoDup (map fst m) /\ forall e, In e (t_iter t) <-> In e m.
+
+  (* nslots t unfolds to @length (tslot K V) _: transport along an equation instead of rewriting *)
+  Lemma core_n n n' (l : list (slot entry)) : n = n' ->
+    core K entry fst (hmn n) l -> core K entry fst (hmn n') l.
+  Proof. intros ->. auto. Qed.
+
+  Lemma iter_holds (t : table) e : In e (t_iter t) <-> Holds (slots t) e.
+  Proof. apply in_entries. Qed.
+
+  Lemma entries_repeat n : entries (repeat None n) = [].
+  Proof. induction n as [|n IH]; [reflexivity|]. simpl repeat. rewrite entries_cons. exact IH. Qed.
+
+  Lemma pre_inv_fresh n : pre_inv (mkT (repeat None n) 0).
+  Proof.
+    split; [apply core_repeat|]. simpl. rewrite occupied_repeat. reflexivity.
+  Qed.
+
+  Lemma inv_uq t : pre_inv t -> UQ K entry fst (slots t).
+  Proof. intros [[_ [_ H]] _]. exact H. Qed.
+
+  Lemma iter_nodup t : pre_inv t -> NoDup (map fst (t_iter t)).
+  Proof. intros H. apply UQ_NoDup. apply inv_uq. assumption. Qed.
+
+  Lemma nslots0_iter t : nslots t = 0 -> t_iter t = [].
+  Proof.
+    unfold TableModel.nslots, TableModel.t_iter. intros H. apply length_zero_iff_nil in H. rewrite H. reflexivity.
+  Qed.
+
+  Lemma R_exists t : pre_inv t -> R t (t_iter t).
+  Proof. intros H. split; [apply iter_nodup; assumption|tauto]. Qed.
+
+  Lemma R_perm t m : pre_inv t -> R t m -> Permutation (t_iter t) m.
+  Proof.
+    intros Hi [Hnd Hin]. apply NoDup_Permutation; [| |exact Hin].
+    - apply NoDup_map_inv with (f := fst). apply iter_nodup. assumption.
+    - apply NoDup_map_inv with (f := fst). assumption.
+  Qed.
+
+  Lemma R_len t m : pre_inv t -> R t m -> nitems t = length m.
+  Proof.
+    intros Hi Hr. pose proof (R_perm t m Hi Hr) as Hp. apply Permutation_length in Hp.
+    destruct Hi as [_ Hn]. rewrite Hn. exact Hp.
+  Qed.
+
+  Lemma R_nil t m : t_iter t = [] -> R t m -> m = [].
+  Proof.
+    intros Hnil [_ Hin]. destruct m as [|e m]; [reflexivity|].
+    exfalso. specialize (Hin e). rewrite Hnil in Hin. apply Hin. left. reflexivity.
+  Qed.
+
+  (* ---------------------------------------------------------------- lookup *)
+  Lemma lookup_spec t k : t_inv t ->
+    exists r, t_lookup t k = Some r /\
+      match r with
+      | Some e => In e (t_iter t) /\ fst e = k
+      | None => forall e, In e (t_iter t) -> fst e <> k
+      end.
+  Proof.
+    intros [[Hc Hn] Hload]. unfold TableModel.t_lookup.
+    destruct (Nat.eqb_spec (nslots t) 0) as [H0|H0].
+    - exists None. split; [reflexivity|]. rewrite (nslots0_iter t H0). intros e [].
+    - destruct (find_spec K entry keq fst keq_spec (hmn (nslots t)) (slots t) k Hc
+                  (home_lt k (nslots t) ltac:(lia))) as [r [Hf Hr]].
+      unfold rh_find. unfold hmn in Hf at 1. unfold TableModel.nslots in *. rewrite Hf.
+      destruct r as [i|].
+      + destruct Hr as [e [Hat Hk]]. rewrite Hat. exists (Some e). split; [reflexivity|].
+        split; [|exact Hk]. apply iter_holds. exists i, (hmn (length (slots t)) k). exact Hat.
+      + exists None. split; [reflexivity|]. intros e He. apply iter_holds in He.
+        destruct He as [a [g Ha]]. eapply Hr; eauto.
+  Qed.
+
+  Lemma lookup_refines t m k : t_inv t -> R t m ->
+    t_lookup t k = Some (match a_get m k with Some v => Some (k, v) | None => None end).
+  Proof.
+    intros Hi [Hnd Hin]. destruct (lookup_spec t k Hi) as [r [Hl Hr]]. rewrite Hl. f_equal.
+    destruct r as [[k' v]|].
+    - destruct Hr as [He Hk]. simpl in Hk. subst k'. apply Hin in He.
+      apply (a_get_some K V keq keq_spec m k v Hnd) in He. rewrite He. reflexivity.
+    - destruct (a_get m k) as [v|] eqn:Hg; [|reflexivity]. exfalso.
+      apply (a_get_some K V keq keq_spec m k v Hnd) in Hg. apply Hin in Hg. apply (Hr _ Hg). reflexivity.
+  Qed.
+
+  (* ---------------------------------------------------------------- Table_Set_Move *)
+  Lemma set_move_spec t k v : pre_inv t -> nitems t < nslots t ->
+    exists t1, set_move t k v = Some t1 /\ pre_inv t1 /\ nslots t1 = nslots t /\
+      (forall e, In e (t_iter t1) <-> e = (k, v) \/ (In e (t_iter t) /\ fst e <> k)) /\
+      nitems t1 <= S (nitems t).
+  Proof.
+    intros [Hc Hn] Hload.
+    assert (Hh0 : hmn (nslots t) (fst (k, v)) < length (slots t)) by (apply home_lt; unfold TableModel.nslots in *; lia).
+    assert (Hocc : occupied (slots t) < length (slots t)) by (unfold TableModel.nslots in Hload; lia).
+    destruct (insert_spec K entry keq fst swap new_wins keq_spec swap_le swap_ge
+                ltac:(intros e c H; exact eq_refl) (hmn (nslots t)) (slots t) (k, v) Hc swap_strict Hh0 Hocc)
+      as [l' [fresh [newe [Hins [Hc' [Hlen [Hh [Hk [Hfr Hnf]]]]]]]]].
+    assert (Hnew : newe = (k, v)).
+    { destruct fresh; [destruct (Hfr eq_refl) as [_ [H _]]; exact H|].
+      destruct (Hnf eq_refl) as [[eold [_ [_ H]]] _]. exact H. }
+    subst newe. simpl in Hins, Hh.
+    exists (mkT l' (if fresh then S (nitems t) else nitems t)).
+    split.
+    { unfold TableModel.set_move, rh_insert. unfold hmn in Hins. rewrite Hins. reflexivity. }
+    split; [|split; [exact Hlen|split]].
+    - split; simpl.
+      + apply (core_n (nslots t)); [symmetry; exact Hlen|exact Hc'].
+      + destruct fresh; [destruct (Hfr eq_refl) as [_ [_ H]]|destruct (Hnf eq_refl) as [_ H]]; lia.
+    - intros e. rewrite !iter_holds. simpl. apply Hh.
+    - simpl. destruct fresh; lia.
+  Qed.
+
+  (* ---------------------------------------------------------------- Table_Rehash *)
+  Lemma t_rehash_spec t n : UQ K entry fst (slots t) -> occupied (slots t) < n ->
+    exists t2, t_rehash t n = Some t2 /\ t_inv t2 /\ nslots t2 = n /\
+      (forall e, In e (t_iter t2) <-> In e (t_iter t)) /\ nitems t2 = occupied (slots t).
+  Proof.
+    intros Huq Hocc.
+    assert (Hho : forall k, home k n = hmn n k) by reflexivity.
+    assert (Hhm : forall k, hmn n k < n) by (intros k; apply home_lt; lia).
+    assert (Hle : occupied (slots t) <= n) by lia.
+    destruct (rehash_spec K entry keq fst swap new_wins keq_spec swap_le swap_ge (hmn n) home (slots t) n
+                Huq Hho Hhm Hle)
+      as [l' [Hr [Hc' [Hlen [Hh Ho]]]]].
+    exists (mkT l' (occupied l')). split.
+    { unfold TableModel.t_rehash, rh_rehash. rewrite Hr. reflexivity. }
+    split; [|split; [exact Hlen|split]].
+    - split; [split|]; simpl.
+      + apply (core_n n); [symmetry; exact Hlen|exact Hc'].
+      + reflexivity.
+      + left. change (occupied l' < length l'). lia.
+    - intros e. rewrite !iter_holds. simpl. apply Hh.
+    - simpl. exact Ho.
+  Qed.
+
+  Lemma resize_more_spec t : pre_inv t ->
+    exists t2, resize_more t = Some t2 /\ t_inv t2 /\
+      (forall e, In e (t_iter t2) <-> In e (t_iter t)) /\ nitems t2 = nitems t.
+  Proof.
+    intros Hp. pose proof Hp as [Hc Hn]. unfold TableModel.resize_more.
+    pose proof (ideal_gt (nitems t)) as Hid. fold ideal in Hid.
+    destruct (Nat.ltb_spec (nslots t) (ideal (nitems t))) as [Hlt|Hge].
+    - destruct (t_rehash_spec t (ideal (nitems t)) (inv_uq t Hp) ltac:(lia)) as [t2 [Hr [Hi [_ [Hit Hni]]]]].
+      exists t2. split; [exact Hr|]. split; [exact Hi|]. split; [exact Hit|lia].
+    - exists t. split; [reflexivity|]. split; [|split; [tauto|reflexivity]].
+      split; [exact Hp|]. left. lia.
+  Qed.
+
+  Lemma resize_less_spec t : pre_inv t -> nitems t < nslots t ->
+    exists t2, resize_less t = Some t2 /\ t_inv t2 /\
+      (forall e, In e (t_iter t2) <-> In e (t_iter t)) /\ nitems t2 = nitems t.
+  Proof.
+    intros Hp Hload. pose proof Hp as [Hc Hn]. unfold TableModel.resize_less.
+    pose proof (ideal_gt (nitems t)) as Hid. fold ideal in Hid.
+    destruct (Nat.ltb_spec (ideal (nitems t)) (nslots t)) as [Hlt|Hge].
+    - destruct (t_rehash_spec t (ideal (nitems t)) (inv_uq t Hp) ltac:(lia)) as [t2 [Hr [Hi [_ [Hit Hni]]]]].
+      exists t2. split; [exact Hr|]. split; [exact Hi|]. split; [exact Hit|lia].
+    - exists t. split; [reflexivity|]. split; [|split; [tauto|reflexivity]].
+      split; [exact Hp|]. left. lia.
+  Qed.
+
+  (* ---------------------------------------------------------------- Table_Assign / copy *)
+  Lemma set_all_spec : forall (kvs : list entry) t, pre_inv t -> nitems t + length kvs < nslots t ->
+    NoDup (map fst kvs) -> (forall e e', In e kvs -> In e' (t_iter t) -> fst e' <> fst e) ->
+    exists t', set_all t kvs = Some t' /\ pre_inv t' /\ nslots t' = nslots t /\
+      (forall e, In e (t_iter t') <-> In e kvs \/ In e (t_iter t)) /\
+      nitems t' <= nitems t + length kvs.
+  Proof.
+    induction kvs as [|[k v] r IH]; intros t Hp Hload Hnd Habs.
+    - exists t. split; [reflexivity|]. split; [assumption|]. split; [reflexivity|]. split; [simpl; tauto|lia].
+    - simpl in Hload, Hnd. inversion Hnd as [|? ? Hnin Hnd']; subst.
+      destruct (set_move_spec t k v Hp ltac:(lia)) as [t1 [Hsm [Hp1 [Hns1 [Hit1 Hni1]]]]].
+      destruct (IH t1 Hp1) as [t' [Hsa [Hp' [Hns' [Hit' Hni']]]]]; auto.
+      + lia.
+      + intros e e' He He'. apply Hit1 in He'. destruct He' as [->|[He' _]].
+        * simpl. intros Heq. apply Hnin. rewrite Heq. apply in_map. assumption.
+        * apply Habs; [right; assumption|assumption].
+      + exists t'. split.
+        { simpl. rewrite Hsm. exact Hsa. }
+        split; [exact Hp'|]. split; [lia|]. split; [|simpl; lia].
+        intros e. rewrite Hit', Hit1. simpl. split.
+        * intros [H|[H|[H _]]]; auto.
+        * intros [[H|H]|H]; auto. right. right. split; [assumption|].
+          apply (Habs (k, v) e); [left; reflexivity|assumption].
+  Qed.
+
+  Lemma assign_from_spec t : t_inv t ->
+    exists t', t_assign_from t = Some t' /\ t_inv t' /\ (forall e, In e (t_iter t') <-> In e (t_iter t)).
+  Proof.
+    intros [Hp Hload]. pose proof Hp as [Hc Hn]. unfold TableModel.t_assign_from.
+    pose proof (ideal_gt (nitems t)) as Hid. fold ideal in Hid.
+    set (t0 := mkT (repeat None (ideal (nitems t))) 0).
+    assert (Hns0 : nslots t0 = ideal (nitems t)) by apply repeat_length.
+    assert (Hlen : length (t_iter t) = nitems t) by (rewrite Hn; reflexivity).
+    destruct (set_all_spec (t_iter t) t0 (pre_inv_fresh _)) as [t' [Hsa [Hp' [Hns' [Hit' Hni']]]]].
+    - rewrite Hns0, Hlen. simpl. lia.
+    - apply iter_nodup. assumption.
+    - intros e e' _ He'. unfold t0, TableModel.t_iter in He'. simpl in He'. rewrite entries_repeat in He'. destruct He'.
+    - exists t'. split; [exact Hsa|]. split.
+      + split; [exact Hp'|]. left. rewrite Hns', Hns0. simpl in Hni'. lia.
+      + intros e. rewrite Hit'. unfold t0 at 1, TableModel.t_iter at 2. simpl. rewrite entries_repeat. simpl. tauto.
+  Qed.
+
+  (* ---------------------------------------------------------------- one operation *)
+  Definition step_ok (t : table) (m : amap K V) (o : op K V) : Prop :=
+    t_inv (fst (t_step t o)) /\ R (fst (t_step t o)) (fst (spec_step m o)) /\
+    snd (t_step t o) = snd (spec_step m o).
+
+  Lemma t_inv_nil : t_inv (mkT [] 0).
+  Proof. split; [apply (pre_inv_fresh 0)|right; reflexivity]. Qed.
+
+  Lemma step_set t m k v : t_inv t -> R t m -> step_ok t m (TSet K V k v).
+  Proof.
+    intros [Hp Hload] [Hnd Hin]. unfold step_ok, TableModel.t_step.
+    set (t0 := if nslots t =? 0 then mkT (repeat None (ideal 0)) 0 else t).
+    assert (H0 : pre_inv t0 /\ nitems t0 < nslots t0 /\ forall e, In e (t_iter t0) <-> In e (t_iter t)).
+    { unfold t0. destruct (Nat.eqb_spec (nslots t) 0) as [Hz|Hz].
+      - split; [apply pre_inv_fresh|]. split.
+        + unfold TableModel.nslots. simpl. rewrite repeat_length. apply (ideal_gt 0).
+        + intros e. rewrite (nslots0_iter t Hz). unfold TableModel.t_iter. simpl. rewrite entries_repeat. tauto.
+      - split; [assumption|]. split; [lia|tauto]. }
+    destruct H0 as [Hp0 [Hl0 Hit0]].
+    destruct (set_move_spec t0 k v Hp0 Hl0) as [t1 [Hsm [Hp1 [Hns1 [Hit1 Hni1]]]]].
+    destruct (resize_more_spec t1 Hp1) as [t2 [Hrm [Hi2 [Hit2 Hni2]]]].
+    rewrite Hsm, Hrm. simpl. split; [exact Hi2|]. split; [|reflexivity].
+    split; [apply nodup_a_set; assumption|].
+    intros e. rewrite Hit2, Hit1, Hit0, Hin. symmetry. apply in_a_set. assumption.
+  Qed.
+
+  Lemma step_get t m k : t_inv t -> R t m -> step_ok t m (TGet K V k).
+  Proof.
+    intros Hi Hr. unfold step_ok, TableModel.t_step, TableModel.spec_step.
+    rewrite (lookup_refines t m k Hi Hr). destruct (a_get m k); simpl; auto.
+  Qed.
+
+  Lemma step_mem t m k : t_inv t -> R t m -> step_ok t m (TMem K V k).
+  Proof.
+    intros Hi Hr. unfold step_ok, TableModel.t_step, TableModel.spec_step.
+    rewrite (lookup_refines t m k Hi Hr). destruct (a_get m k); simpl; auto.
+  Qed.
+
+  Lemma step_rem t m k : t_inv t -> R t m -> step_ok t m (TRem K V k).
+  Proof.
+    intros Hi Hr. pose proof Hi as [Hp Hload]. pose proof Hp as [Hc Hn]. pose proof Hr as [Hnd Hin].
+    unfold step_ok, TableModel.t_step, TableModel.spec_step.
+    destruct (Nat.eqb_spec (nslots t) 0) as [Hz|Hz].
+    - rewrite (R_nil t m (nslots0_iter t Hz) Hr). simpl. split; [assumption|]. split; [|reflexivity].
+      rewrite <- (R_nil t m (nslots0_iter t Hz) Hr). assumption.
+    - assert (Hpos : 0 < nslots t) by lia.
+      destruct (find_spec K entry keq fst keq_spec (hmn (nslots t)) (slots t) k Hc
+                  (home_lt k (nslots t) Hpos)) as [r [Hf Hfr]].
+      unfold rh_find. unfold hmn in Hf at 1. rewrite Hf.
+      destruct r as [i|].
+      + destruct Hfr as [[k' v'] [Hat Hk]]. simpl in Hk. subst k'.
+        assert (Hocc : occupied (slots t) < length (slots t)) by (unfold TableModel.nslots in *; lia).
+        destruct (delete_at_spec K entry fst swap swap_le (hmn (nslots t)) (slots t) i _ _ Hc Hat Hocc)
+          as [l' [Hd [Hc' [Hlen [Hh Ho]]]]].
+        unfold rh_delete. rewrite Hd.
+        set (t1 := mkT l' (pred (nitems t))).
+        assert (Hp1 : pre_inv t1).
+        { split; simpl; [|lia]. apply (core_n (nslots t)); [symmetry; exact Hlen|exact Hc']. }
+        assert (Hl1 : nitems t1 < nslots t1).
+        { assert (Hlen2 : length l' = nslots t) by exact Hlen.
+          change (pred (nitems t) < length l'). lia. }
+        destruct (resize_less_spec t1 Hp1 Hl1) as [t2 [Hrl [Hi2 [Hit2 Hni2]]]].
+        rewrite Hrl.
+        assert (Hg : a_get m k = Some v').
+        { apply (a_get_some K V keq keq_spec m k v' Hnd). apply Hin. apply iter_holds. exists i, (hmn (nslots t) k). exact Hat. }
+        rewrite Hg. simpl. split; [exact Hi2|]. split; [|reflexivity].
+        split; [apply nodup_a_rem; assumption|].
+        intros e. rewrite Hit2. rewrite (in_a_rem K V keq keq_spec), <- Hin, !iter_holds. apply Hh.
+      + assert (Hg : a_get m k = None).
+        { apply a_get_none; [assumption|]. intros Hk. apply in_map_iff in Hk. destruct Hk as [e [Hk He]].
+          apply Hin in He. apply iter_holds in He. destruct He as [a [g Ha]]. eapply Hfr; eauto. }
+        rewrite Hg. simpl. auto.
+  Qed.
+
+  Lemma step_resize t m n : t_inv t -> R t m -> step_ok t m (TResize K V n).
+  Proof.
+    intros Hi Hr. pose proof Hi as [Hp Hload]. pose proof Hp as [Hc Hn]. pose proof Hr as [Hnd Hin].
+    unfold step_ok, TableModel.t_step, TableModel.spec_step.
+    destruct (Nat.eqb_spec n 0) as [Hz|Hz].
+    - simpl. split; [apply t_inv_nil|]. split; [|reflexivity]. split; [constructor|]. intros e. simpl. tauto.
+    - rewrite <- (R_len t m Hp Hr).
+      destruct (Nat.ltb_spec n (nitems t)) as [Hlt|Hge].
+      + simpl. auto.
+      + pose proof (ideal_gt n) as Hid. fold ideal in Hid.
+        destruct (t_rehash_spec t (ideal n) (inv_uq t Hp) ltac:(lia)) as [t2 [Hrh [Hi2 [_ [Hit2 _]]]]].
+        rewrite Hrh. simpl. split; [exact Hi2|]. split; [|reflexivity].
+        split; [assumption|]. intros e. rewrite Hit2. apply Hin.
+  Qed.
+
+  Lemma step_copy t m : t_inv t -> R t m -> step_ok t m (TSelfCopy K V).
+  Proof.
+    intros Hi [Hnd Hin]. unfold step_ok, TableModel.t_step, TableModel.spec_step.
+    destruct (assign_from_spec t Hi) as [t' [Ha [Hi' Hit']]]. rewrite Ha. simpl.
+    split; [exact Hi'|]. split; [|reflexivity]. split; [assumption|].
+    intros e. rewrite Hit'. apply Hin.
+  Qed.
+
+  (* every operation keeps the invariant, keeps the abstraction relation with the finite map
+     and returns what the finite map returns — in particular never OFuel / OCrash *)
+  Theorem step_refines t m o : t_inv t -> R t m -> step_ok t m o.
+  Proof.
+    intros Hi Hr. destruct o.
+    - apply step_set; assumption.
+    - apply step_rem; assumption.
+    - apply step_get; assumption.
+    - apply step_mem; assumption.
+    - apply step_resize; assumption.
+    - apply step_copy; assumption.
+  Qed.
+
+  (* ---------------------------------------------------------------- Table_New with pairs, assign *)
+  Definition a_set_all (m : amap K V) (kvs : list entry) : amap K V :=
+    fold_left (fun m kv => a_set m (fst kv) (snd kv)) kvs m.
+
+  (* duplicates among the pairs allowed: later pairs win *)
+  Lemma set_all_refines : forall (kvs : list entry) t m, pre_inv t -> R t m ->
+    nitems t + length kvs < nslots t ->
+    exists t', set_all t kvs = Some t' /\ pre_inv t' /\ nslots t' = nslots t /\
+      nitems t' <= nitems t + length kvs /\ R t' (a_set_all m kvs).
+  Proof.
+    induction kvs as [|[k v] r IH]; intros t m Hp Hr Hload.
+    - exists t. split; [reflexivity|]. split; [assumption|]. split; [reflexivity|]. split; [lia|assumption].
+    - simpl in Hload. destruct Hr as [Hnd Hin].
+      destruct (set_move_spec t k v Hp ltac:(lia)) as [t1 [Hsm [Hp1 [Hns1 [Hit1 Hni1]]]]].
+      assert (Hr1 : R t1 (a_set m k v)).
+      { split; [apply nodup_a_set; assumption|]. intros e. rewrite Hit1, Hin. symmetry. apply in_a_set. assumption. }
+      destruct (IH t1 (a_set m k v) Hp1 Hr1 ltac:(lia)) as [t' [Hsa [Hp' [Hns' [Hni' Hr']]]]].
+      exists t'. split.
+      { simpl. rewrite Hsm. exact Hsa. }
+      split; [exact Hp'|]. split; [lia|]. split; [simpl; lia|exact Hr'].
+  Qed.
+
+  Lemma t_new_refines (kvs : list entry) :
+    exists t, t_new K V keq hash swap primes num den kvs = Some t /\ t_inv t /\ R t (a_set_all [] kvs).
+  Proof.
+    unfold TableModel.t_new. fold ideal.
+    pose proof (ideal_gt (length kvs)) as Hid. fold ideal in Hid.
+    set (t0 := mkT (repeat None (ideal (length kvs))) 0).
+    assert (Hns0 : nslots t0 = ideal (length kvs)) by apply repeat_length.
+    assert (Hr0 : R t0 []).
+    { split; [constructor|]. intros e. unfold t0, TableModel.t_iter. simpl. rewrite entries_repeat. tauto. }
+    destruct (set_all_refines kvs t0 [] (pre_inv_fresh _) Hr0) as [t' [Hsa [Hp' [Hns' [Hni' Hr']]]]].
+    - rewrite Hns0. simpl. lia.
+    - exists t'. split; [exact Hsa|]. split; [|exact Hr'].
+      split; [exact Hp'|]. left. rewrite Hns', Hns0. simpl in Hni'. lia.
+  Qed.
+
+  (* Table_Assign(self, src) with src another Table: self becomes a table with src's bindings *)
+  Lemma assign_from_refines src m : t_inv src -> R src m ->
+    exists t', t_assign_from src = Some t' /\ t_inv t' /\ R t' m.
+  Proof.
+    intros Hi [Hnd Hin]. destruct (assign_from_spec src Hi) as [t' [Ha [Hi' Hit']]].
+    exists t'. split; [exact Ha|]. split; [exact Hi'|]. split; [assumption|].
+    intros e. rewrite Hit'. apply Hin.
+  Qed.
+
+  (* ---------------------------------------------------------------- histories *)
+  Lemma t_inv_empty : t_inv t_empty.
+  Proof.
+    split; [apply pre_inv_fresh|]. left. unfold TableModel.t_empty, TableModel.nslots. simpl.
+    rewrite repeat_length. apply (ideal_gt 0).
+  Qed.
+
+  Lemma R_empty : R t_empty [].
+  Proof.
+    split; [constructor|]. intros e. unfold TableModel.t_empty, TableModel.t_iter. simpl.
+    rewrite entries_repeat. tauto.
+  Qed.
+
+  Lemma run_refines : forall ops t m, t_inv t -> R t m ->
+    t_inv (t_run ops t) /\ R (t_run ops t) (spec_run ops m).
+  Proof.
+    induction ops as [|o ops IH]; intros t m Hi Hr; [split; assumption|].
+    destruct (step_refines t m o Hi Hr) as [Hi' [Hr' _]].
+    unfold TableModel.t_run, TableModel.spec_run. simpl. apply IH; assumption.
+  Qed.
+
+  Theorem refines_map ops o :
+    let t := t_run ops t_empty in
+    let m := spec_run ops [] in
+    t_inv t /\ R t m /\ snd (t_step t o) = snd (spec_step m o).
+  Proof.
+    intros t m. destruct (run_refines ops t_empty [] t_inv_empty R_empty) as [Hi Hr].
+    fold t in Hi, Hr. fold m in Hr. split; [exact Hi|]. split; [exact Hr|].
+    apply (step_refines t m o Hi Hr).
+  Qed.
+
+  (* ---------------------------------------------------------------- corollaries *)
+  Lemma spec_out_ok m o : snd (spec_step m o) <> OFuel V /\ snd (spec_step m o) <> OCrash V.
+  Proof.
+    destruct o; unfold TableModel.spec_step;
+      repeat match goal with |- context [match ?x with _ => _ end] => destruct x end;
+      simpl; split; discriminate.
+  Qed.
+
+  (* termination / fuel adequacy and no undefined behaviour of the model *)
+  Lemma step_total t o : t_inv t -> snd (t_step t o) <> OFuel V /\ snd (t_step t o) <> OCrash V.
+  Proof.
+    intros [Hp Hl]. destruct (step_refines t (t_iter t) o (conj Hp Hl) (R_exists t Hp)) as [_ [_ Ho]].
+    rewrite Ho. apply spec_out_ok.
+  Qed.
+
+  Lemma inv_len t m : t_inv t -> R t m -> t_len t = length m.
+  Proof. intros [Hp _] Hr. apply R_len; assumption. Qed.
+
+  Lemma inv_iter_keys t m : t_inv t -> R t m ->
+    NoDup (map fst (t_iter t)) /\ Permutation (t_iter t) m /\
+    (forall k, In k (map fst (t_iter t)) <-> a_get m k <> None).
+  Proof.
+    intros [Hp _] Hr. split; [apply iter_nodup; assumption|]. split; [apply R_perm; assumption|].
+    intros k. rewrite (a_get_none K V keq keq_spec m k).
+    pose proof (Permutation_map fst (R_perm t m Hp Hr)) as Hpm.
+    split.
+    - intros Hin Hnot. apply Hnot. apply (Permutation_in _ Hpm). assumption.
+    - intros Hnn. destruct (in_dec (fun a b => match bool_dec (keq a b) true with
+                                             | left e => left (proj1 (keq_spec a b) e)
+                                             | right ne => right (fun eq => ne (proj2 (keq_spec a b) eq)) end)
+                              k (map fst m)) as [Hin|Hnin]; [|contradiction].
+      apply (Permutation_in _ (Permutation_sym Hpm)). assumption.
+  Qed.
+
+  Lemma inv_get t m k : t_inv t -> R t m ->
+    snd (t_step t (TGet K V k)) = match a_get m k with Some v => OVal V v | None => ORaise V KeyError end /\
+    snd (t_step t (TMem K V k)) = OBool V (match a_get m k with Some _ => true | None => false end).
+  Proof.
+    intros Hi Hr. destruct (step_get t m k Hi Hr) as [_ [_ Hg]]. destruct (step_mem t m k Hi Hr) as [_ [_ Hm]].
+    rewrite Hg, Hm. unfold TableModel.spec_step. destruct (a_get m k); split; reflexivity.
+  Qed.
+
+  Lemma inv_absent t m k : t_inv t -> R t m -> a_get m k = None ->
+    t_step t (TGet K V k) = (t, ORaise V KeyError) /\ t_step t (TRem K V k) = (t, ORaise V KeyError).
+  Proof.
+    intros Hi Hr Hg. split.
+    - unfold TableModel.t_step. rewrite (lookup_refines t m k Hi Hr), Hg. reflexivity.
+    - destruct (step_rem t m k Hi Hr) as [_ [_ Ho]]. unfold TableModel.spec_step in Ho. rewrite Hg in Ho. simpl in Ho.
+      revert Ho. unfold TableModel.t_step.
+      repeat match goal with |- context [match ?x with _ => _ end] => destruct x end; simpl; intros; congruence.
+  Qed.
+
+  Lemma spec_run_app ops1 ops2 m : spec_run (ops1 ++ ops2) m = spec_run ops2 (spec_run ops1 m).
+  Proof. apply fold_left_app. Qed.
+
+  Lemma spec_run_clear ops ops' : spec_run (ops ++ TResize K V 0 :: ops') [] = spec_run ops' [].
+  Proof. rewrite spec_run_app. reflexivity. Qed.
+End TP.
+
+(* ---------------------------------------------------------------- the generated rule and sizes *)
+Lemma table_swap_strict j p : table_swap j p = true -> p < j.
+Proof. unfold table_swap. intros H. apply Nat.ltb_lt in H. exact H. Qed.
+
+Lemma table_swap_ge j p : table_swap j p = false -> j <= p.
+Proof. unfold table_swap. intros H. apply Nat.ltb_ge in H. exact H. Qed.
+
+(* ---------------------------------------------------------------- final forms (Properties_C02.v) *)
+(* the model with everything that is re-extracted from the C source plugged in *)
+Definition T_empty (K V : Type) : table K V := t_empty K V table_primes table_load_num table_load_den.
+Definition T_step (K V : Type) (keq : K -> K -> bool) (hash : K -> N) : table K V -> op K V -> table K V * out V :=
+  t_step K V keq hash table_swap table_primes table_load_num table_load_den.
+Definition T_run (K V : Type) (keq : K -> K -> bool) (hash : K -> N) (ops : list (op K V)) : table K V :=
+  t_run K V keq hash table_swap table_primes table_load_num table_load_den ops (T_empty K V).
+
+Lemma t_inv_unfold K V hash (t : table K V) :
+  t_inv K V hash t <->
+  ((RHL (entry K V) (slots K V t) /\
+    WF K (entry K V) fst (fun k => home K hash k (nslots K V t)) (slots K V t) /\
+    UQ K (entry K V) fst (slots K V t)) /\
+   nitems K V t = occupied (entry K V) (slots K V t)) /\
+  (nitems K V t < nslots K V t \/ nslots K V t = 0).
+Proof. reflexivity. Qed.
+
+Lemma R_unfold K V (t : table K V) (m : amap K V) :
+  R K V t m <-> NoDup (map fst m) /\ forall e, In e (t_iter K V t) <-> In e m.
+Proof. reflexivity. Qed.
+
+Section Final.
+  Variables K V : Type.
+  Variable keq : K -> K -> bool.
+  Variable hash : K -> N.
+  Hypothesis keq_spec : forall a b, keq a b = true <-> a = b.
+
+  Local Notation t_inv := (t_inv K V hash).
+  Local Notation R := (R K V).
+  Local Notation T_step := (T_step K V keq hash).
+  Local Notation T_run := (T_run K V keq hash).
+  Local Notation spec_step := (spec_step K V keq).
+  Local Notation spec_run := (spec_run K V keq).
+  Local Notation a_get := (a_get K V keq).
+
+  Lemma T_inv_empty : t_inv (T_empty K V).
+  Proof. apply t_inv_empty. exact ideal_gt. Qed.
+
+  Lemma T_step_refines (t : table K V) (m : amap K V) (o : op K V) : t_inv t -> R t m ->
+    t_inv (fst (T_step t o)) /\ R (fst (T_step t o)) (fst (spec_step m o)) /\
+    snd (T_step t o) = snd (spec_step m o).
+  Proof. apply (step_refines K V keq hash table_swap _ _ _ keq_spec table_swap_strict table_swap_ge ideal_gt). Qed.
+
+  Lemma T_step_total (t : table K V) (o : op K V) : t_inv t ->
+    snd (T_step t o) <> OFuel V /\ snd (T_step t o) <> OCrash V.
+  Proof. apply (step_total K V keq hash table_swap _ _ _ keq_spec table_swap_strict table_swap_ge ideal_gt). Qed.
+
+  Lemma T_refines_map (ops : list (op K V)) (o : op K V) :
+    let t := T_run ops in
+    let m := spec_run ops [] in
+    t_inv t /\ R t m /\ snd (T_step t o) = snd (spec_step m o).
+  Proof. apply (refines_map K V keq hash table_swap _ _ _ keq_spec table_swap_strict table_swap_ge ideal_gt). Qed.
+
+  Lemma T_len_iter (ops : list (op K V)) :
+    let t := T_run ops in
+    let m := spec_run ops [] in
+    t_len K V t = length m /\
+    NoDup (map fst (t_iter K V t)) /\
+    Permutation (t_iter K V t) m /\
+    (forall k, In k (map fst (t_iter K V t)) <-> a_get m k <> None).
+  Proof.
+    intros t m. destruct (T_refines_map ops (TSelfCopy K V)) as [Hi [Hr _]]. fold t in Hi, Hr. fold m in Hr.
+    split; [apply (inv_len K V hash t m Hi Hr)|]. apply (inv_iter_keys K V keq hash keq_spec t m Hi Hr).
+  Qed.
+
+  Lemma T_get_mem (ops : list (op K V)) (k : K) :
+    let t := T_run ops in
+    let m := spec_run ops [] in
+    snd (T_step t (TGet K V k)) = match a_get m k with Some v => OVal V v | None => ORaise V KeyError end /\
+    snd (T_step t (TMem K V k)) = OBool V (match a_get m k with Some _ => true | None => false end).
+  Proof.
+    intros t m. destruct (T_refines_map ops (TSelfCopy K V)) as [Hi [Hr _]].
+    apply (inv_get K V keq hash table_swap table_primes table_load_num table_load_den keq_spec t m k Hi Hr).
+  Qed.
+
+  Lemma T_absent_keyerror (ops : list (op K V)) (k : K) :
+    let t := T_run ops in
+    let m := spec_run ops [] in
+    a_get m k = None ->
+    T_step t (TGet K V k) = (t, ORaise V KeyError) /\ T_step t (TRem K V k) = (t, ORaise V KeyError).
+  Proof.
+    intros t m. destruct (T_refines_map ops (TSelfCopy K V)) as [Hi [Hr _]].
+    apply (inv_absent K V keq hash table_swap _ _ _ keq_spec table_swap_strict table_swap_ge ideal_gt t m k Hi Hr).
+  Qed.
+
+  (* resize(t, 0) frees the slot array; whatever came before, the table then behaves as a new one *)
+  Lemma T_emptied_keeps_working (ops ops' : list (op K V)) (o : op K V) :
+    let t := T_run (ops ++ TResize K V 0 :: ops') in
+    let m := spec_run ops' [] in
+    t_inv t /\ R t m /\ snd (T_step t o) = snd (spec_step m o).
+  Proof.
+    intros t m. pose proof (T_refines_map (ops ++ TResize K V 0 :: ops') o) as H.
+    cbv zeta in H. rewrite spec_run_clear in H. exact H.
+  Qed.
+
+  Lemma T_new_refines (kvs : list (entry K V)) :
+    exists t, t_new K V keq hash table_swap table_primes table_load_num table_load_den kvs = Some t /\
+      t_inv t /\ R t (a_set_all K V keq [] kvs).
+  Proof. apply (t_new_refines K V keq hash table_swap _ _ _ keq_spec table_swap_strict table_swap_ge ideal_gt). Qed.
+
+  Lemma T_assign_refines (src : table K V) (m : amap K V) : t_inv src -> R src m ->
+    exists t', t_assign_from K V keq hash table_swap table_primes table_load_num table_load_den src = Some t' /\
+      t_inv t' /\ R t' m.
+  Proof. apply (assign_from_refines K V keq hash table_swap _ _ _ keq_spec table_swap_strict table_swap_ge ideal_gt). Qed.
+End Final.
+
+(* ---------------------------------------------------------------- the old rule `if (j >= p)` *)
+Local Open Scope Z_scope.
+Definition nonstrict_swap (j p : nat) : bool := (p <=? j)%nat.
+Definition witness_ops : list (op Z Z) := [TSet Z Z 55 1; TSet Z Z 110 2; TSet Z Z 55 3].
+
+(* with the pinned rule the refinement fails for the identity hash: keys 55 and 110 share a
+   home slot (both are 0 modulo 5); updating the older one inserts it a second time *)
+Lemma T_nonstrict_refuted :
+  exists (hash : Z -> N) (ops : list (op Z Z)),
+    let t := t_run Z Z Z.eqb hash nonstrict_swap table_primes table_load_num table_load_den ops (T_empty Z Z) in
+    let m := spec_run Z Z Z.eqb ops [] in
+    t_len Z Z t = 3%nat /\ length m = 2%nat /\
+    map fst (t_iter Z Z t) = [55; 110; 55] /\ map fst m = [55; 110].
+Proof. exists Z.to_N, witness_ops. vm_compute. repeat split; reflexivity. Qed.
+
+(* non-vacuity: a reachable table with three keys sharing the LAST slot of five as home (so two
+   of them wrapped around to slots 0 and 1), satisfying the invariant and the relation *)
+Definition example_ops : list (op Z Z) := [TSet Z Z 4 1; TSet Z Z 9 2; TSet Z Z 14 3; TSet Z Z 3 4].
+
+Lemma T_inv_nonvacuous :
+  exists (t : table Z Z) (m : amap Z Z),
+    t_inv Z Z Z.to_N t /\ R Z Z t m /\
+    slots Z Z t = [Some (4%nat, (9, 2)); Some (4%nat, (14, 3)); None; Some (3%nat, (3, 4)); Some (4%nat, (4, 1))] /\
+    m = [(3, 4); (14, 3); (9, 2); (4, 1)].
+Proof.
+  exists (T_run Z Z Z.eqb Z.to_N example_ops), (spec_run Z Z Z.eqb example_ops []).
+  destruct (T_refines_map Z Z Z.eqb Z.to_N Z.eqb_eq example_ops (TSelfCopy Z Z)) as [Hi [Hr _]].
+  split; [exact Hi|]. split; [exact Hr|]. split; vm_compute; reflexivity.
+Qed.
